@@ -12,7 +12,7 @@ LEVEL_TEXT = ("The finite space length 0..223 x 8 sequence-counter states is enu
 TECHNIQUE = "exhaustive enumeration (length x counter) with a frame-validity predicate and decode round trip; Hypothesis message lists"
 RULE = ("(a) every length 0..223 x every counter state 0..7 x fillings through encode_ebyte/usb/yacht_devices of an encoder whose per-PGN "
         "payload function is stubbed on the instance (PGN 126720/130816 fallbacks); (b) every encodable fast-packet definition with "
-        "generated accepted values through the unstubbed path; (c) Hypothesis lists of 1..20 consecutive messages over one or several streams, into decoders that are fresh or pre-loaded with 7..4100 abandoned partial messages, with and without real time passing between frames; (d) long runs on one decoder (up to 262k frames quick / 400k thorough) in which otherwise idle streams start a message on the (k*P-1)-th, (k*P)-th and (k*P+1)-th frame the decoder has seen, P = 2^4..2^17 and powers of ten; non-trivial = length on "
+        "generated accepted values through the unstubbed path; (c) Hypothesis lists of 1..20 consecutive messages over one or several streams, into decoders that are fresh or pre-loaded with 7..4100 abandoned partial messages, with and without real time passing between frames; (d) long runs on one decoder (2^18 and 2^20 frames quick, 2^22 thorough) in which idle streams (fresh or long unused keys) start a message on the (T-1)-th, T-th and (T+1)-th frame the decoder has seen, T = powers of two, round decimal numbers and multiples of 2^10..2^16 / 10^3..10^5; non-trivial = length on "
         "a frame boundary (<=6, 6+7k, 6+7k+-1, 223) or counter >= 6 or a list with wrap; distinct = (pgn, length, counter, filling, format)")
 ASSUMPTIONS = [
     "arbitrary payload bytes are observable only through the BINARY field of the proprietary fallback definitions; payloads of >= 2 bytes "
@@ -285,22 +285,43 @@ def _lists(ctx: Ctx, item):
             max_examples=n_hyp, name="lists")
 
 
-def tick_history(period, ks, report):
-    """One decoder sees a long run of fast-packet frames. Three otherwise idle streams start a message on the (k*period-1)-th, (k*period)-th
-    and (k*period+1)-th frame the decoder has ever seen; every message (also of the busy filler stream) must be delivered.
-    report(bucket, what) is called for every discrepancy."""
+def tick_targets(limit):
+    """Frame counts at which periodic housekeeping is likely to run: powers of two, round decimal numbers and their multiples."""
+    t = set()
+    e = 4
+    while 2 ** e <= limit:
+        t.add(2 ** e)
+        e += 1
+    for p in (2 ** 16, 2 ** 15, 2 ** 14, 2 ** 12, 2 ** 10, 50000, 10000, 100000, 1000, 4096 * 5):
+        t.update(range(p, limit + 1, p) if limit // p <= 40 else range(p, 40 * p + 1, p))
+    k = 100
+    while k <= limit:
+        t.update(int(m * k) for m in (1, 2, 2.5, 3, 4, 5, 6, 7.5, 8, 9) if m * k <= limit)
+        k *= 10
+    out, last = [], -100
+    for x in sorted(t):
+        if x - last >= 16 and x <= limit:
+            out.append(x)
+            last = x
+    return out
+
+
+def tick_history(limit, report, targets=None):
+    """One decoder sees a long run of fast-packet frames (up to `limit`). Around every target count T three otherwise idle streams
+    (fresh or long unused keys) start a message on the (T-1)-th, T-th and (T+1)-th frame the decoder has ever seen; every message
+    (also of the busy filler stream) must be delivered. report(bucket, what) is called for every discrepancy."""
     from nmea2000.decoder import NMEA2000Decoder
     dec = NMEA2000Decoder()
     count = 0
     seqs = {}
 
-    def send(pgn, src, dest, payload, frames=None, only=None):
-        """Feed the frames (or the slice `only`) of one message; -> last result."""
+    def send(pgn, src, dest, frames):
         nonlocal count
         r = None
-        for fr in frames[only] if only is not None else frames:
+        i = wire.ident(pgn, src, dest, 3)
+        for fr in frames:
             count += 1
-            r = dec.decode_tcp(wire.ebyte(wire.ident(pgn, src, dest, 3), fr))
+            r = dec.decode_tcp(wire.ebyte(i, fr))
         return r
 
     def fresh(key, payload):
@@ -314,46 +335,47 @@ def tick_history(period, ks, report):
             report("C03|ebyte|long-run|payload", f"{what}: wrong message or payload")
 
     msgno = 0
-    f2 = fp.header(130816, 1) + bytes(8)            # 10 bytes: two frames
-    f1 = fp.header(130816, 2) + bytes(3)            # 5 bytes: one frame
-    for k in ks:
-        target = k * period
+    h2, h1 = fp.header(130816, 1), fp.header(130816, 2)
+    for ti, target in enumerate(targets if targets is not None else tick_targets(limit)):
         # busy stream up to two frames before the target
         while count < target - 2:
             left = target - 2 - count
-            pl = f2 if left >= 2 else f1
-            pl = pl[:2] + bytes([msgno & 0xFF]) * (len(pl) - 2)
+            pl = (h2 + bytes([msgno & 0xFF]) * 8) if left >= 2 else (h1 + bytes([msgno & 0xFF]) * 3)     # two frames / one frame
             msgno += 1
-            verify(send(130816, 2, 255, pl, fresh("f", pl)), 130816, pl, f"busy stream message {msgno} (frame {count} of the run)")
+            verify(send(130816, 2, 255, fresh("f", pl)), 130816, pl, f"busy stream message {msgno} (frame {count} of the run)")
         idle = []
         for j in range(3):
-            pl = fp.header(126720, 3 + j) + bytes([k & 0xFF, j, 0xA5]) * 5          # 17 bytes: three frames
-            frames = fresh(("r", j), pl)
-            idle.append((j, pl, frames))
-            if send(126720, 10 + j, 5, pl, frames, slice(0, 1)) is not None:
+            n = 3 * ti + j
+            src, dest = 10 + n % 240, 5 + (n // 240) % 5
+            pl = fp.header(126720, 3 + j) + bytes([ti & 0xFF, j, 0xA5]) * 5          # 17 bytes: three frames
+            frames = fresh(("r", src, dest), pl)
+            idle.append((src, dest, pl, frames, count + 1))
+            if send(126720, src, dest, frames[:1]) is not None:
                 report("C03|ebyte|long-run|early-delivery", f"message returned at a first frame (frame {count} of the run)")
-        for j, pl, frames in idle:
-            verify(send(126720, 10 + j, 5, pl, frames, slice(1, None)), 126720, pl,
-                   f"idle stream {j}: message whose first frame was frame number {target - 1 + j} seen by the decoder")
+        for src, dest, pl, frames, at in idle:
+            verify(send(126720, src, dest, frames[1:]), 126720, pl,
+                   f"idle stream {src}->{dest}: message whose first frame was frame number {at} seen by the decoder")
     return count
 
 
 def _ticks(ctx: Ctx, item):
-    period, ks = item
+    limit, = item
     found = []
-    n = tick_history(period, ks, lambda b, w: found.append((b, w)))
+    targets = tick_targets(limit)
+    n = tick_history(limit, lambda b, w: found.append((b, w)), targets)
     ctx.count(n)
-    ctx.nontrivial_extra += len(ks) * 3
+    ctx.nontrivial_extra += len(targets) * 3
     ctx.klass("long_run_frames", n)
-    ctx.klass("long_run_idle_stream_messages", len(ks) * 3)
+    ctx.klass("long_run_idle_stream_messages", len(targets) * 3)
     for b, w in found[:5]:
-        ctx.report(b, w + f" (period {period})", {"ticks": period, "ks": list(ks)})
+        ctx.report(b, w, {"ticks": limit})
 
 
 def run(ctx: Ctx):
     # long runs: messages that start on the 2^e-th (+-1) frame a decoder sees, on streams idle since the previous such point
-    periods = [2 ** e for e in range(4, 18)] + ([1000, 10000, 100000, 50000] if not ctx.quick else [10000])
-    pmap(ctx, _ticks, [(p, (1, 2) if ctx.quick or p > 70000 else (1, 2, 3, 4)) for p in periods])
+    import os
+    limits = [2 ** 17 + 100] if os.environ.get("VF_SUBPASS") else [2 ** 18 + 100, 2 ** 20 + 100] if ctx.quick else [2 ** 18 + 100, 2 ** 20 + 100, 2 ** 22 + 100]
+    pmap(ctx, _ticks, [(x,) for x in limits])
     pmap(ctx, _grid, [(c, ctx.quick, ctx.seed) for c in chunks(list(range(224)), 32)])
     ctx.exhaustive = True
     ctx.notes["exhaustive_space"] = "length 0..223 x counter state 0..7 x 3 frame formats" + (" x 1 filling" if ctx.quick else " x 4 fillings")
@@ -368,7 +390,7 @@ def run(ctx: Ctx):
 def replay(ctx: Ctx, case):
     if "ticks" in case:
         found = []
-        tick_history(case["ticks"], case["ks"], lambda b, w: found.append((b, w, case)))
+        tick_history(case["ticks"], lambda b, w: found.append((b, w, case)))
         return found[:5]
     from nmea2000.decoder import NMEA2000Decoder
     from nmea2000.encoder import NMEA2000Encoder
